@@ -105,18 +105,27 @@ func (pm *PeerManager) GetProcess(
 func (pm *PeerManager) getOrCreate(p peer.ID) *peerProcessInstance {
 	pqi, ok := pm.peerProcesses[p]
 	if !ok {
-		pq := pm.createPeerProcess(pm.ctx, p, pm.onQueueShutdown)
+		pqi = &peerProcessInstance{}
+		instance := pqi
+		pq := pm.createPeerProcess(pm.ctx, p, func(p peer.ID) {
+			pm.onQueueShutdown(p, instance)
+		})
+		pqi.process = pq
 		if pprocess, ok := pq.(PeerProcess); ok {
 			pprocess.Startup()
 		}
-		pqi = &peerProcessInstance{0, pq}
 		pm.peerProcesses[p] = pqi
 	}
 	return pqi
 }
 
-func (pm *PeerManager) onQueueShutdown(p peer.ID) {
+// onQueueShutdown removes the table entry of a process that has shut down.
+// A newer process for the same peer may have been created in the meantime
+// (after Disconnected removed the old entry), its entry must stay
+func (pm *PeerManager) onQueueShutdown(p peer.ID, instance *peerProcessInstance) {
 	pm.peerProcessesLk.Lock()
 	defer pm.peerProcessesLk.Unlock()
-	delete(pm.peerProcesses, p)
+	if pm.peerProcesses[p] == instance {
+		delete(pm.peerProcesses, p)
+	}
 }
